@@ -212,7 +212,7 @@ class Collector:
         if not self.items:
             return
         known = _known()
-        if known:
+        if known and not _PLAIN[0]:
             from ..run import matches_known
 
             mod = sys.modules[__name__]
@@ -220,6 +220,9 @@ class Collector:
                 if not any(matches_known(mod, e, self.sub, self.spec, v.clause) for e in known):
                     raise v
         raise self.items[0]
+
+
+_PLAIN = [False]  # True while a known-finding predicate re-runs a case (no recursion into known matching)
 
 
 @functools.lru_cache(maxsize=None)
@@ -277,7 +280,9 @@ def wellformed(R, fn, col: Collector):
         if isinstance(s, Assignment):
             e = s.expression._sympy_()
             used = {str(x) for x in e.free_symbols}
-            funcs = [f for f in e.atoms(AppliedUndef)]
+            # state variables: undefined functions of t alone, e.g. A_CENTRAL(t); other undefined functions (PHI(..),
+            # user functions) are not symbols in the sense of the property
+            funcs = [f for f in e.atoms(AppliedUndef) if len(f.args) == 1 and str(f.args[0]) in ('t', '0')]
             bad = sorted(u for u in used if u not in defined)
             for f in funcs:
                 if str(f) in defined or str(f.func) in amount_funcs:
@@ -418,6 +423,11 @@ def judged_call(M, name, ints, twice, col: Collector, evals, mode='api'):
         stp.exc = 'argument-construction:' + type(e).__name__
         return stp
     fn = entry.resolve()
+    if entry.domain is not None:
+        why = entry.domain(M)
+        if why:
+            stp.exc = 'outside-domain'
+            return stp
     stp.kw = _short(kwargs)
     others = [x for x in models_in(list(kwargs.values())) if x is not M]
 
@@ -658,7 +668,59 @@ SUBCHECKS = [
     SubCheck('eqhash', lambda: SPEC, run_eq, quick=300, thorough=8000, enumerate=enumerate_eq, quick_time=100.0, thorough_time=1100.0),
 ]
 
-KNOWN_PREDICATES = {}
+def chain_names(spec):
+    """function names of the chain of a spec (pure function of the spec)"""
+    names = api_table.names()
+    tnames = api_table.transform_names()
+    steps = [s for s in (spec.get('steps') or []) if isinstance(s, list) and len(s) >= 2][:3]
+    out = []
+    for i, stp in enumerate(steps):
+        pool = names if i == len(steps) - 1 else tnames
+        fi = stp[0] if isinstance(stp[0], int) else 0
+        out.append(pool[abs(fi) % len(pool)])
+    return out
+
+
+def _via_nonmem_add_cmt(spec):
+    """the mutation disappears when pharmpy.model.external.nonmem.update._add_cmt works on a copy of the dataset
+    (attribution by ablation: the in-place column assignment happens inside update_source(), whichever modeling
+    function called it)"""
+    import pharmpy.model.external.nonmem.update as upd
+
+    orig = upd._add_cmt
+
+    def patched(model):
+        return orig(model.replace(dataset=model.dataset.copy(), datainfo=model.datainfo))
+
+    upd._add_cmt = patched
+    old_plain = _PLAIN[0]
+    _PLAIN[0] = True
+    try:
+        try:
+            _run(spec, 'api')
+        except Violation as v:
+            return not v.clause.startswith('mutated-')
+        except Reject:
+            return False
+        return True
+    finally:
+        upd._add_cmt = orig
+        _PLAIN[0] = old_plain
+
+
+class _ChainHas(dict):
+    """'chain_has:<fn>' -> predicate: the chain of the spec contains table function <fn>"""
+
+    def get(self, key, default=None):
+        if key == 'via_nonmem_add_cmt':
+            return _via_nonmem_add_cmt
+        if isinstance(key, str) and key.startswith('chain_has:'):
+            fn = key[len('chain_has:'):]
+            return lambda spec, _fn=fn: _fn in chain_names(spec)
+        return default
+
+
+KNOWN_PREDICATES = _ChainHas()
 
 
 # ------------------------------------------------------------------------------------------------
